@@ -177,7 +177,10 @@ def check_property(prop, groups, tier, replays, seed=0, only_group=None, keep=Fa
             a = f"group {g.name}: explicit harness, frame (assigns) not checked"
             if a not in assumptions:
                 assumptions.append(a)
-    level = "proof" if n_u > 0 else "other"
+    from . import claims as _claims
+    level = (_claims.CLAIMS.get(prop) or {}).get("category") or ("proof" if n_u > 0 else "other")
+    if level == "proof" and n_u == 0:
+        level = "other"
     cov = {
         "obligations": n_u, "discharged": d_u,
         "checker_cmd": "goto-cc (real /repo sources + /verif/spec contracts) | goto-instrument --dfcc --enforce-contract/--replace-call-with-contract (dfcc groups) | cbmc --bounds-check --pointer-check; per-group commands under 'groups'",
